@@ -82,7 +82,8 @@ type Job struct {
 	// error flavour of a failing job: EWrap 1/2 = the error wraps
 	// context.DeadlineExceeded / context.Canceled (no context of the case
 	// need be done), 3 = it wraps the error a nested scheduler returned
-	// after one of its jobs called runtime.Goexit; EShare = 1+index of an earlier failing job whose error
+	// after one of its jobs called runtime.Goexit, 4 = its Is method reports a
+	// match for every target (a category-style error); EShare = 1+index of an earlier failing job whose error
 	// instance this job returns as well.
 	EWrap  int `json:"ewrap,omitempty"`
 	EShare int `json:"eshare,omitempty"`
@@ -356,6 +357,8 @@ func GenCase(t *rapid.T, p Profile) *Case {
 				c.Jobs[j].EWrap = 2
 			case 4:
 				c.Jobs[j].EWrap = 3 // the error of a nested scheduler one of whose jobs exited its goroutine
+			case 5:
+				c.Jobs[j].EWrap = 4 // an error whose Is method matches every target
 			case 2, 3:
 				if len(failing) > 0 {
 					c.Jobs[j].EShare = 1 + failing[uniform(t, "eshare", len(failing))]
